@@ -134,11 +134,11 @@ package errbase
 
 //@ func FormatError
 //@   props C09
-//@   requires err != nil
+//@   requires err != nil && s != nil
 
 //@ func FormatRedactableError
 //@   props C09 C06
-//@   requires err != nil
+//@   requires err != nil && s != nil
 
 //@ type OpaqueErrno invariant self.details != nil
 
